@@ -16,6 +16,8 @@ import (
 
 	"tunnox-core/internal/cloud/models"
 	"tunnox-core/internal/cloud/repos"
+	"tunnox-core/internal/core/storage/hybrid"
+	"tunnox-core/internal/core/storage/memory"
 	"tunnox-core/internal/httpservice"
 	"tunnox-core/internal/httpservice/modules/domainproxy"
 	"tunnox-core/internal/protocol/httptypes"
@@ -54,6 +56,22 @@ type PCase struct {
 	Registry []int   `json:"registry"` // per name: client index registered in the legacy in-memory DomainRegistry, -1 none
 	Cloud    []int   `json:"cloud"`    // per name: client index owning a legacy HTTP PortMapping in cloud control, -1 none
 	Steps    []PStep `json:"steps"`
+	// CacheTTLms > 0: the repository runs on a hybrid(memory) storage whose DefaultCacheTTL is
+	// this short (production: 1 h) and the history contains "wait" steps that outlast it:
+	// time passes beyond the cache TTL while mappings are owned and unexpired.
+	CacheTTLms int `json:"cache_ttl_ms,omitempty"`
+}
+
+// counterKeeper keeps the mapping id counter from expiring with the shortened cache TTL
+// (hybrid.Incr writes it with the default cache TTL: finding C19/id-counter/counter-has-ttl,
+// pinned separately by TestCounterExpiry).
+type counterKeeper struct{ *memory.Storage }
+
+func (c counterKeeper) Set(key string, v any, ttl time.Duration) error {
+	if key == repos.KeyHTTPDomainNextID {
+		ttl = 0
+	}
+	return c.Storage.Set(key, v, ttl)
 }
 
 type routed struct {
@@ -124,6 +142,12 @@ func newPWorld(c PCase) (*pWorld, error) {
 	}
 	w := &pWorld{srv: srv, repo: srv.Domains, sess: &sessDouble{offline: map[int64]bool{}},
 		owner: map[int]*pOwner{}, lastID: map[int]string{}, regOwn: map[int]int64{}, cldOwn: map[int]int64{}}
+	if c.CacheTTLms > 0 {
+		cfg := hybrid.DefaultConfig()
+		cfg.DefaultCacheTTL = time.Duration(c.CacheTTLms) * time.Millisecond
+		h := hybrid.NewWithSharedCache(srv.Ctx, counterKeeper{memory.New(srv.Ctx)}, nil, nil, cfg)
+		w.repo = repos.NewHTTPDomainMappingRepository(repos.NewRepository(h), []string{"tunnox.net", "tunnel.test.local"})
+	}
 	w.reg = httpservice.NewDomainRegistry([]string{"tunnox.net", "tunnel.test.local"})
 	for i, ci := range c.Cloud {
 		if ci < 0 || i >= len(pNames) {
@@ -265,6 +289,9 @@ func runProxyCase(c PCase) pResult {
 		name := pFull(ni)
 		client := clientIDs[((st.Client%len(clientIDs))+len(clientIDs))%len(clientIDs)]
 		switch st.Do {
+		case "wait":
+			time.Sleep(time.Duration(c.CacheTTLms)*time.Millisecond*5/2 + 20*time.Millisecond)
+			r.feat("time-passes-beyond-cache-ttl")
 		case "offline":
 			w.sess.offline[client] = true
 		case "online":
@@ -587,6 +614,33 @@ func TestProxyHistories(t *testing.T) {
 			c.Steps = append(c.Steps, genPStep(t, fmt.Sprintf("s%d", i)))
 		}
 		reportProxy(t, c, runProxyCase(c), "proxy/history")
+	})
+}
+
+// TestProxyHistoriesTimePasses: the same state machine on a storage whose default cache TTL
+// is 60 ms, with one or two waits that outlast it: an owned, unexpired mapping must still
+// resolve and route to its owner and the name must stay unclaimable for others.
+func TestProxyHistoriesTimePasses(t *testing.T) {
+	vkit.Check(t, 200, 4000, func(t *rapid.T) {
+		c := PCase{CacheTTLms: 60}
+		for range pNames {
+			c.Registry = append(c.Registry, -1)
+			c.Cloud = append(c.Cloud, -1)
+		}
+		n := rapid.IntRange(3, 10).Draw(t, "n")
+		waits := rapid.IntRange(1, 2).Draw(t, "waits")
+		at := map[int]bool{}
+		for i := 0; i < waits; i++ {
+			at[rapid.IntRange(1, n-1).Draw(t, "waitAt")] = true
+		}
+		c.Steps = append(c.Steps, PStep{Do: "create", Name: rapid.SampledFrom(nameDraw).Draw(t, "n0"), Client: rapid.IntRange(0, 2).Draw(t, "c0")})
+		for i := 1; i < n; i++ {
+			if at[i] {
+				c.Steps = append(c.Steps, PStep{Do: "wait"})
+			}
+			c.Steps = append(c.Steps, genPStep(t, fmt.Sprintf("s%d", i)))
+		}
+		reportProxy(t, c, runProxyCase(c), "proxy/history-time-passes")
 	})
 }
 
